@@ -467,41 +467,87 @@ impl std::ops::Mul<i32> for Glue {
 }
 
 impl Glue {
+    /// Decides how a stretch or shrink component of `rhs` is added to the same component of `self`.
+    ///
+    /// Returns the order of the sum and, if the sum is not simply one of the two amounts, `None`;
+    /// in that case the amounts have the same order and must be added.
+    ///
+    /// TeX.2021.1239: a zero amount being added has no order of infinity,
+    /// amounts of the same order are added,
+    /// and otherwise a non-zero amount of a higher order replaces the amount being added.
+    fn sum_component(
+        lhs: Scaled,
+        lhs_order: GlueOrder,
+        rhs: Scaled,
+        rhs_order: GlueOrder,
+    ) -> (Option<Scaled>, GlueOrder) {
+        let rhs_order = if rhs == Scaled::ZERO {
+            GlueOrder::Normal
+        } else {
+            rhs_order
+        };
+        if rhs_order == lhs_order {
+            (None, rhs_order)
+        } else if rhs_order < lhs_order && lhs != Scaled::ZERO {
+            (Some(lhs), lhs_order)
+        } else {
+            (Some(rhs), rhs_order)
+        }
+    }
+
     /// TeX.2021.1239
     pub fn wrapping_add(self, rhs: Glue) -> Self {
-        use std::cmp::Ordering::*;
+        let (stretch, stretch_order) = match Glue::sum_component(
+            self.stretch,
+            self.stretch_order,
+            rhs.stretch,
+            rhs.stretch_order,
+        ) {
+            (None, order) => (self.stretch.wrapping_add(rhs.stretch), order),
+            (Some(stretch), order) => (stretch, order),
+        };
+        let (shrink, shrink_order) = match Glue::sum_component(
+            self.shrink,
+            self.shrink_order,
+            rhs.shrink,
+            rhs.shrink_order,
+        ) {
+            (None, order) => (self.shrink.wrapping_add(rhs.shrink), order),
+            (Some(shrink), order) => (shrink, order),
+        };
         Glue {
             width: self.width.wrapping_add(rhs.width),
-            stretch: match self.stretch_order.cmp(&rhs.stretch_order) {
-                Less => rhs.stretch,
-                Equal => self.stretch.wrapping_add(rhs.stretch),
-                Greater => self.stretch,
-            },
-            stretch_order: self.stretch_order.max(rhs.stretch_order),
-            shrink: match self.shrink_order.cmp(&rhs.shrink_order) {
-                Less => rhs.shrink,
-                Equal => self.shrink.wrapping_add(rhs.shrink),
-                Greater => self.shrink,
-            },
-            shrink_order: self.shrink_order.max(rhs.shrink_order),
+            stretch,
+            stretch_order,
+            shrink,
+            shrink_order,
         }
     }
     pub fn checked_add(self, rhs: Glue) -> Option<Self> {
-        use std::cmp::Ordering::*;
+        let (stretch, stretch_order) = match Glue::sum_component(
+            self.stretch,
+            self.stretch_order,
+            rhs.stretch,
+            rhs.stretch_order,
+        ) {
+            (None, order) => (self.stretch.checked_add(rhs.stretch)?, order),
+            (Some(stretch), order) => (stretch, order),
+        };
+        let (shrink, shrink_order) = match Glue::sum_component(
+            self.shrink,
+            self.shrink_order,
+            rhs.shrink,
+            rhs.shrink_order,
+        ) {
+            (None, order) => (self.shrink.checked_add(rhs.shrink)?, order),
+            (Some(shrink), order) => (shrink, order),
+        };
         Some(Glue {
             width: self.width.checked_add(rhs.width)?,
-            stretch: match self.stretch_order.cmp(&rhs.stretch_order) {
-                Less => rhs.stretch,
-                Equal => self.stretch.checked_add(rhs.stretch)?,
-                Greater => self.stretch,
-            },
-            stretch_order: self.stretch_order.max(rhs.stretch_order),
-            shrink: match self.shrink_order.cmp(&rhs.shrink_order) {
-                Less => rhs.shrink,
-                Equal => self.shrink.checked_add(rhs.shrink)?,
-                Greater => self.shrink,
-            },
-            shrink_order: self.shrink_order.max(rhs.shrink_order),
+            stretch,
+            stretch_order,
+            shrink,
+            shrink_order,
         })
     }
     pub fn checked_mul(self, rhs: i32) -> Option<Self> {
